@@ -6,4 +6,4 @@ mod needs;
 pub use loader::{
     ExportInfo, LoadResult, LoadedNativeInfo, ModuleImports, ModuleInfo, ModuleLoader,
 };
-pub use needs::{load_modules_for_program, load_modules_with_loader};
+pub use needs::{load_modules_for_program, load_modules_with_loader, load_modules_with_memo};
